@@ -72,6 +72,10 @@ def configs(tier):
     add("b-B2-rev", B=2, growers=[2, 1], chunks=1)
     add("b-B2-shared", B=2, growers=[1, 2], chunks=1, entry="shared")
     add("b-B2-odd", B=2, growers=[1, 2], chunks=1, odd=True)
+    # a waiting reap that is also told that an incomplete crop would do: it
+    # still waits (and returns everything)
+    add("b-B2-wait-ai", B=2, growers=[1, 2], chunks=1,
+        reap_kw={"allow_incomplete": True})
     add("c-B1-twice", B=1, growers=[1, 1])
     add("c-B2-twice", B=2, growers=[1, 1, 2], chunks=1)
     add("d-B2-poll1-nr", B=2, growers=[1, 2], poll=1, chunks=1,
@@ -160,7 +164,9 @@ class Setup:
                              lambda ex, ids=ids: _crop(d).grow(
                                  list(ids), verbosity=0)))
         cu = cfg["clean_up"]
-        acts.append(("R", lambda ex: _crop(d).reap(wait=True, clean_up=cu)))
+        rkw = dict(cfg.get("reap_kw") or {})
+        acts.append(("R", lambda ex: _crop(d).reap(wait=True, clean_up=cu,
+                                                   **rkw)))
         if cfg["poll"]:
             def poller(ex, rounds=cfg["poll"]):
                 crop = _crop(d)
@@ -249,7 +255,14 @@ class Setup:
                         "grower %s raised %s" % (a.name, a.exc)))
                     oc.append("G!" + a.exc.split(":")[0])
             elif a.name == "R":
-                if a.exc:
+                if a.exc and (self.cfg.get("reap_kw") or {}).get(
+                        "allow_incomplete") and a.exc.startswith("XYZError") \
+                        and "at least one finished result" in a.exc:
+                    # (nothing was finished when the reap began and there is
+                    # nothing to take the stand-in for missing results from:
+                    # the documented refusal of allow_incomplete)
+                    oc.append("R:refused")
+                elif a.exc:
                     vio.append(("C11|%s|reaper-raised:%s" % (
                         name, a.exc.split(":")[0]),
                         "reap(wait=True) raised %s" % a.exc))
